@@ -36,28 +36,36 @@ Definition v3_set_keys (s : v3sock) (user : bytes) (auth_alg : Z) (auth_key_m : 
   Ok {| engine_id := engine_id s; engine_boots := engine_boots s; engine_time := engine_time s; user_name := user;
         auth := a; privk := p; msg_id := msg_id s; request_id := request_id s |}.
 
-(* send_request: request id drawn, PDU built by the operation, then push_pdu (msg id drawn there), sign *)
-Definition v3_push_pdu (s : v3sock) (p : pdu) (rnd_msg : Z) : res (v3sock * bytes) :=
-  let flag_priv := has_priv (pk_alg (privk s)) in
+(* push_pdu: encrypt (advances the salt), draw the message id, serialise, sign.  The socket state is updated
+   as far as execution got, also when an error is returned. *)
+Definition with_priv_msgid (s : v3sock) (k : priv_key) (mid : Z) : v3sock :=
+  {| engine_id := engine_id s; engine_boots := engine_boots s; engine_time := engine_time s;
+     user_name := user_name s; auth := auth s; privk := k; msg_id := mid; request_id := request_id s |}.
+
+Definition v3_message (s : v3sock) (p : pdu) (mid : Z) (pp : bytes) (d : msgdata) : v3msg :=
   let flag_report := match p with PGetRequest g => match g_vars g with [] => true | _ => false end | _ => false end in
-  let sc := {| s_engine_id := engine_id s; s_pdu := p |} in
-  '(pk', ppd) <- (if flag_priv then
-                    '(kc, pp) <- priv_encrypt (privk s) sc (engine_boots s) (engine_time s) ;;
-                    let '(k', ct) := kc in Ok (k', (pp, Encrypted ct))
-                  else Ok (privk s, ([], Plaintext sc))) ;;
-  let '(pp, d) := ppd in
-  let mid := next_id rnd_msg in
-  let m := {| m_msg_id := mid; m_flag_auth := has_auth (ak_alg (auth s)); m_flag_priv := flag_priv;
-              m_flag_report := flag_report;
-              m_usm := {| u_engine_id := engine_id s; u_engine_boots := engine_boots s; u_engine_time := engine_time s;
-                          u_user_name := user_name s; u_auth_params := placeholder (ak_alg (auth s));
-                          u_privacy_params := pp |};
-              m_data := d |} in
-  let s' := {| engine_id := engine_id s; engine_boots := engine_boots s; engine_time := engine_time s;
-               user_name := user_name s; auth := auth s; privk := pk'; msg_id := mid; request_id := request_id s |} in
+  {| m_msg_id := mid; m_flag_auth := has_auth (ak_alg (auth s)); m_flag_priv := has_priv (pk_alg (privk s));
+     m_flag_report := flag_report;
+     m_usm := {| u_engine_id := engine_id s; u_engine_boots := engine_boots s; u_engine_time := engine_time s;
+                 u_user_name := user_name s; u_auth_params := placeholder (ak_alg (auth s));
+                 u_privacy_params := pp |};
+     m_data := d |}.
+
+Definition v3_finish (s : v3sock) (m : v3msg) : res bytes :=
   b <- push_v3 empty_buffer m ;;
-  signed <- alg_sign (auth s) (data b) (get_bookmark b) ;;
-  Ok (s', signed).
+  alg_sign (auth s) (data b) (get_bookmark b).
+
+Definition v3_push_pdu (s : v3sock) (p : pdu) (rnd_msg : Z) : v3sock * res bytes :=
+  let sc := {| s_engine_id := engine_id s; s_pdu := p |} in
+  let mid := next_id rnd_msg in
+  if has_priv (pk_alg (privk s)) then
+    match priv_encrypt (privk s) sc (engine_boots s) (engine_time s) with
+    | (k', Ok (ct, pp)) =>
+      (with_priv_msgid s k' mid, v3_finish s (v3_message s p mid pp (Encrypted ct)))
+    | (k', Err e) => (with_priv_msgid s k' (msg_id s), Err e)
+    | (k', Panic) => (with_priv_msgid s k' (msg_id s), Panic)
+    end
+  else (with_priv_msgid s (privk s) mid, v3_finish s (v3_message s p mid [] (Plaintext sc))).
 
 Definition with_request_id (s : v3sock) (rid : Z) : v3sock :=
   {| engine_id := engine_id s; engine_boots := engine_boots s; engine_time := engine_time s; user_name := user_name s;
